@@ -26,6 +26,8 @@ type Module struct {
 	Asserts bool
 	// ModuleBuildErr is set when the module failed to build for reasons outside any case.
 	ModuleBuildErr string
+	// CoverDir, when set, is passed as GOCOVERDIR to every CLI run (use with the cover-instrumented binary).
+	CoverDir string
 	// AltBin maps the case feature "cli" to an alternative CLI binary (e.g. a customised goverter main).
 	AltBin map[string]string
 	// GenTimeout is the watchdog of one CLI run.
@@ -210,7 +212,11 @@ func (m *Module) Generate(bin string) {
 		if alt, ok := m.AltBin[cr.Case.Features["cli"]]; ok && alt != "" {
 			useBin = alt
 		}
-		cr.Gen = RunCmd(useBin, args, RunOpts{Dir: cr.Dir, Env: m.Env.GoEnv(), Timeout: m.genTimeout()})
+		env := m.Env.GoEnv()
+		if m.CoverDir != "" {
+			env = append(env, "GOCOVERDIR="+m.CoverDir)
+		}
+		cr.Gen = RunCmd(useBin, args, RunOpts{Dir: cr.Dir, Env: env, Timeout: m.genTimeout()})
 		after := snapshot(cr.Dir)
 		cr.Written = map[string][]byte{}
 		for p, b := range after {
@@ -483,4 +489,23 @@ func (m *Module) RaceReports() []string {
 		}
 	}
 	return reports
+}
+
+// CoverPercent folds the coverage counters written by cover-instrumented CLI runs into statement coverage per package.
+func CoverPercent(e *Env, dir string) map[string]string {
+	out := map[string]string{}
+	cmd := exec.Command("go", "tool", "covdata", "percent", "-i="+dir)
+	cmd.Env = e.GoEnv()
+	b, err := cmd.CombinedOutput()
+	if err != nil {
+		out["error"] = firstLines(string(b), 2)
+		return out
+	}
+	for _, l := range strings.Split(string(b), "\n") {
+		f := strings.Fields(l)
+		if len(f) >= 3 && strings.HasPrefix(f[0], "github.com/jmattheis/goverter") {
+			out[strings.TrimPrefix(f[0], "github.com/jmattheis/")] = f[2]
+		}
+	}
+	return out
 }
